@@ -82,13 +82,14 @@ for _pid, _title, _what in [
         note=TB + "Modelled: hand-written Gallina models of normalize.py / parse.py / convert.py; integral numeric constants; insertion-ordered sets in the correspondence run.", ref="5/" + _pid)
 
 CLAIMED["C06"] = dict(cat="proof", tech="Coq proof that normalize() preserves acceptance on the propositional-scalar fragment (keyword mergers and inverters, _merge, _invert, merge, invert, _to_dnf, _inline_refs, normalize) + executable specification compared with jsonschema + model-implementation correspondence of normal forms + validator oracle over instance grids for the whole dialect",
-   text="Partial, by fragment. C06_fragment / C06_fragment_default / C06_fragment_exec: for every schema built from type, enum, minimum / maximum / exclusiveMinimum / exclusiveMaximum, minLength / maxLength, "
-        "minItems / maxItems and the negated enum, combined by allOf, anyOf and not to any depth (unique keys, well-typed values, no 'integer'), whenever the model of normalize() returns -- full merge, no "
+   text="Partial, by fragment. C06_fragment / C06_fragment_default / C06_fragment_exec: for every schema built from type, enum, const, minimum / maximum / exclusiveMinimum / exclusiveMaximum, minLength / maxLength, "
+        "minItems / maxItems and the negated enum, combined by allOf, anyOf, oneOf, not and if / then / else to any depth (unique keys, well-typed values, no 'integer'; the repaired handling of a lone if), whenever the model of normalize() returns -- full merge, no "
         "duplicate detection, no keyword of the fragment discarded; in particular the default configuration -- the any-of list it returns is satisfied by exactly the instances the schema accepts "
         "(inductive meaning `sem`; any recursion budget, any nesting depth). Layers: C06_merge_alternatives (_merge of two keyword sets = conjunction, and it fails where a key has no merger), "
-        "C06_invert_alternative, C06_merge_full (multiplying out = conjunction), C06_invert (= negation), C06_to_dnf_fragment; keyword laws C06_invert_bounds / _lengths / _enum_type. The meaning is "
+        "C06_invert_alternative, C06_merge_full (multiplying out = conjunction), C06_invert (= negation), C06_simplifications (const folded into enum, the conditional rewritten -- an equivalence because "
+        "acceptance is decidable --, type respelled), C06_to_dnf_fragment (oneOf = exactly one), C06_lone_if_refuted_pinned; keyword laws C06_invert_bounds / _lengths / _enum_type. The meaning is "
         "executable (C06_spec_executable: fragb decides membership soundly, semb = sem) and is compared with jsonschema on generated documents of the fragment x instance grids (stream NS), together with "
-        "the model's and the implementation's normal forms. Not in the theorem: properties, required, items, prefixItems, $ref, oneOf, if/then/else, const, multipleOf, 'integer', dependentRequired and the "
+        "the model's and the implementation's normal forms. Not in the theorem: properties, required, items, prefixItems, $ref, multipleOf, 'integer', dependentRequired and the "
         "reduced-merge option (subset claim) -- there the statement is decided by the extended-validator oracle over instance grids and the correspondence of normal forms (stream N).",
    note=TB + "Modelled: coq/Normalize.v (hand-written model of normalize.py + json_pointer.py), integral numeric constants, sets insertion-ordered in the correspondence run. "
         "The specification `sem` of acceptance is ours; its agreement with Draft 2020-12 is exercised against jsonschema (stream NS), not proved.", ref="5/C06")
